@@ -31,6 +31,7 @@ class Evaluator(Formatter):
         self.metadata_keys = {}
         self.incremental = incremental
         self.context_cls = None
+        self._handled = set()
 
     def observer(self, comp, broker):
         if self.context_cls is None:
@@ -44,7 +45,10 @@ class Evaluator(Formatter):
         if comp is combiner_hostname and comp in broker:
             self.hostname = broker[comp].fqdn
 
-        if plugins.is_rule(comp) and comp in broker:
+        # observers fire for every component of every run on the broker, so a
+        # rule that is already reported must not be reported again
+        if plugins.is_rule(comp) and comp in broker and comp not in self._handled:
+            self._handled.add(comp)
             self.handle_result(comp, broker[comp])
 
     def preprocess(self):
